@@ -96,3 +96,7 @@ package cc
 //@
 //@ func (*FeedbackAdapter).OnSent
 //@   modifies *
+//@
+//@ # safety only (property C02): a missing or short TWCC header extension is rejected, not indexed
+//@ func (*FeedbackAdapter).onSentTWCC
+//@   modifies *
